@@ -50,6 +50,7 @@ def jobs(tier, seed):
                                                 'triples': ch}})
     for ch in C.chunks(pairs, 8):
         out.append({'fn': 'cmp_units', 'cfg': {'pairs': ch}})
+    out.append({'fn': 'cmp_units_user', 'cfg': {}})
     out.append({'fn': 'cmp_pair', 'cfg': {'fa': 'dec', 'fb': 'frac', 'pairs': [['km', 'mi']],
                                           'canary': True}, 'canary': True})
     LAST_CONFIG_INFO.clear()
@@ -114,3 +115,20 @@ def cmp_units(E, cfg):
     su, sv = C.scale(u), C.scale(v)
     for name, op in OPS:
         E.check(bool(op(u, v)) == bool(op(su, sv)), 'unit-%s-by-scale' % name, info=[us, vs])
+
+
+def cmp_units_user(E, cfg):
+    """units of a user type with a quantum whose scales are not multiples of the quantum compare by scale"""
+    from fractions import Fraction
+    from quantity.term import Term
+    S = C.mk_cls('Stock', ref_unit_symbol='pc', quantum=1)
+    pc = S.ref_unit
+    scales = {'tpc': Fraction(1, 3), 'hpc': Fraction(1, 2), 'spc': Fraction(3, 2), 'pr': Fraction(2), 'dz': Fraction(12)}
+    units = {'pc': pc}
+    for sym, sc in scales.items():
+        units[sym] = S.new_unit(sym, None, Term(((sc, 1), (pc, 1))))
+    scales['pc'] = Fraction(1)
+    a, b = E.choice('pair', [(x, y) for x in units for y in units])
+    for name, op in OPS:
+        E.check(bool(op(units[a], units[b])) == bool(op(scales[a], scales[b])), 'user-unit-%s-by-scale' % name,
+                key='unit-cmp-user:' + name, info=[a, b])
